@@ -605,14 +605,31 @@ pub fn run_family(family: &str, scn_seed: u64, idx: u64, params: &Params, out: &
             finish_out(out, &scn, o, nontrivial, sample);
             true
         }
-        "frag-len" => {
+        "frag-len" | "frag-max" => {
             // idx 0..=5794 sweeps every length exhaustively; larger idx sample lengths up to 1 MB
             // "first": a stride through the sweep for runs that can afford only a few lengths
             let idx = match params.get("first") {
                 Some(f) => f.parse::<u64>().unwrap_or(0) + idx * 723,
                 None => idx,
             };
-            let len = if idx <= 4 * MAX_FRAGMENT_SIZE as u64 + 2 {
+            let huge = params.flag("huge") || family == "frag-max";
+            let len = if huge {
+                // the top of the legal range: 65536 fragments (last fragment id 0xFFFF), the
+                // fragment-count boundaries just below it, and the powers of two on the way
+                const MAXP: usize = 65536 * MAX_FRAGMENT_SIZE;
+                let mut r = Rng::new(scn_seed ^ 0x4a6e);
+                let fixed = [MAXP, MAXP - 1, MAXP - 1447, MAXP - 1448, MAXP - 1449, 65535 * MAX_FRAGMENT_SIZE + 1, 65534 * MAX_FRAGMENT_SIZE,
+                             32768 * MAX_FRAGMENT_SIZE, 32768 * MAX_FRAGMENT_SIZE + 1, 32768 * MAX_FRAGMENT_SIZE - 1, 16384 * MAX_FRAGMENT_SIZE + 7, 4097 * MAX_FRAGMENT_SIZE];
+                if (idx as usize) < fixed.len() {
+                    fixed[idx as usize]
+                } else {
+                    match r.below(3) {
+                        0 => MAXP - r.below(3000) as usize,
+                        1 => (r.range(4096, 65536) as usize * MAX_FRAGMENT_SIZE + r.below(5) as usize).saturating_sub(2).min(MAXP),
+                        _ => r.log_range(5_000_000, MAXP as u64) as usize,
+                    }
+                }
+            } else if idx <= 4 * MAX_FRAGMENT_SIZE as u64 + 2 {
                 idx as usize
             } else {
                 let mut r = Rng::new(scn_seed ^ 0x1e9);
@@ -622,7 +639,21 @@ pub fn run_family(family: &str, scn_seed: u64, idx: u64, params: &Params, out: &
                     _ => *r.pick(&[65_536usize, 100_000, 1_000_000, 144_800, 1448 * 64, 1448 * 64 + 1]),
                 }
             };
-            let scn = gen_frag_len(scn_seed, len);
+            let mut scn = gen_frag_len(scn_seed, len);
+            if huge {
+                // tens of megabytes need a link that moves them within the horizon
+                let mut r = Rng::new(scn_seed ^ 0x4a6f);
+                scn.cfg[0].max_send_rate = *r.pick(&[20_000_000u32, 200_000_000, u32::MAX]);
+                scn.cadence = [Cadence::Fixed(*r.pick(&[2u64, 10, 30]) * MS), Cadence::Fixed(*r.pick(&[2u64, 10, 30]) * MS)];
+                scn.window = *r.pick(&[64u32, 4096]);
+                for l in scn.link.iter_mut() {
+                    l.latency_ms = l.latency_ms.min(20);
+                }
+                out.counters.inc("single_packet_huge");
+                if len == 65536 * MAX_FRAGMENT_SIZE {
+                    out.counters.inc("single_packet_max_packet_size");
+                }
+            }
             let o = Sim::new(&scn, TwinMode::None, false, verbose).run();
             let mut o = o;
             let delivered = o.c.get("deliveries");
